@@ -72,8 +72,13 @@ func vxShortStringBody(s string) bool {
 func VxC09String() {
 	n := vxParam("N", 2)
 	s := vxString("s", n)
+	if lead := vxParam("LEAD", 0); lead > 0 {
+		// restrict to strings whose first byte is at least LEAD (0xF0: a leading 4-byte code point)
+		vxAssume(int(s[0]) >= lead)
+	}
 	vxAssume(utf8.ValidString(s))
 	esc, err := ast.Escape(s, false)
+	vxObserve("escaped", esc)
 	vxReach("escaped")
 	vxAssert(err == nil, "escape-valid-utf8-no-error")
 	vxAssert(vxShortStringBody(esc), "escaped-string-is-a-string-token-body")
